@@ -84,13 +84,17 @@ class HModel:
         return out
 
     def oblige(self, rule: str, node: ast.AST, func: Optional[FuncInfo], what: str, ok: bool,
-               detail: str = "") -> None:
+               detail: str = "", decided: bool = True) -> None:
         key = (rule, id(node), what)
         o = self.obligs.get(key)
         if o is None:
             self.obligs[key] = {"rule": rule, "node": node, "func": func, "what": what, "ok": ok,
-                                "detail": detail if not ok else ""}
+                                "detail": detail if not ok else "", "decided": decided or ok}
         elif not ok:
+            if o["ok"]:
+                o["decided"] = decided
+            else:
+                o["decided"] = o.get("decided", True) or decided
             o["ok"] = False
             if detail and detail not in o["detail"]:
                 o["detail"] = (o["detail"] + "; " + detail).strip("; ")
@@ -213,7 +217,10 @@ class HModel:
                 else:
                     ops.add("?")
             if "?" in ops or not ops:
-                self.oblige("P1", node, func, "operator of %s" % clsname, False, "operator is unknown")
+                # the interpreter lost track of which operator object this is (e.g. it is looked up in
+                # a table): nothing is known to be wrong, the obligation cannot be decided
+                self.oblige("P1", node, func, "operator of %s" % clsname, False, "operator is unknown",
+                            decided=False)
                 ops.discard("?")
             kinds = set()
             ctx = set()
